@@ -104,3 +104,9 @@ From PV Require Import lib.Condensed.
 Definition api_cdist_wlev (wi wd ws : nat) (xa xb : list str) : list (list nat) := cdist_loop (wlev_dp N.eq_dec wi wd ws) xa xb.
 Definition api_pdist_wlev (wi wd ws : nat) (xs : list str) : list nat := pdist_loop (wlev_dp N.eq_dec wi wd ws) [] xs.
 Definition api_cidx (m i j : nat) : nat := cidx m i j.
+
+(* ---- C15 ---- *)
+From PV Require Import model.Cluster.
+Definition api_components (n : nat) (E : list (nat * nat)) : list nat := components n E.
+Definition api_graph_cc (n : nat) (E : list (nat * nat)) : list (nat * nat) := graph_cc n E.
+Definition api_refines (P Q : list nat) : bool := refines P Q.
